@@ -26,9 +26,9 @@ from ..core import pool_map
 from . import c14_model as jm
 
 MODULE = "chan/Jakes.tla"
-DEVS = ["ArangeCountDrifts", "ArangeStepRounded", "ReusesBuffer", "PlusTsDropped", "SkipOffByOne", "ShapeRestartsTime", "GenRedrawsPhases",
+DEVS = ["ArangeCountDrifts", "ArangeStepRounded", "NumpyIntShapeRejected", "ReusesBuffer", "PlusTsDropped", "SkipOffByOne", "ShapeRestartsTime", "GenRedrawsPhases",
         "SimilarSharesPhases", "NormOneOverL", "DropsTailRays"]
-INVS = ["TypeOK", "Count", "Aligned", "OnGrid", "BuffersDistinct", "EveryRayCounts", "PhasesFixed", "Independent", "Bound", "BoundTight", "ZeroDoppler", "Moves",
+INVS = ["TypeOK", "Count", "Aligned", "OnGrid", "BuffersDistinct", "EveryRayCounts", "ShapeAccepted", "PhasesFixed", "Independent", "Bound", "BoundTight", "ZeroDoppler", "Moves",
         "UnitPower"]
 PROPS = ["Contiguity", "Isolation", "EarlierBlocksUnchanged"]
 # laws the specification may name in the `req` set of an emitted edge, and where the replay enforces them
@@ -40,6 +40,8 @@ LAWS = {
     "StoredBlockKept": "Driver.check_all: non-generating calls leave get_samples() as it was",
     "Count": "shape comparison", "Contiguity": "values at the emitted indexes", "OnGrid": "1 % of a sample tolerance",
     "PhasesFixed": "values with the phases of the emitted draw", "Bound": "|h| <= sqrt(L)",
+    "AnyIntTypeSameShape": "py_shape: the shape is handed over in the form the specification rotates (int, tuple, numpy "
+                           "integer scalar, tuple of numpy integers); the block shapes are compared as always",
     "EveryRayCounts": "values against the sum over ALL L rays, L from 1 to 64 incl. non-multiples of 16 (L_CHOICES)",
     "ZeroDoppler": "values of the Fd = 0 instance (tolerance floor 1e-9)",
 }
@@ -53,12 +55,13 @@ def tlc_par():
 
 
 def model(kind="jakes", gens=(1, 3, 1000), skips=(2,), big=(1,), shapes=((2,),), shape0=((),), warm=(0,), maxlen=4,
-          maxgens=1, gendef=False, lattice=False, L=4, fdq=1, dev=(), emit=True, invs=None, props=None):
+          maxgens=1, gendef=False, lattice=False, L=4, fdq=1, dev=(), emit=True, invs=None, props=None, salt=0):
     sset = lambda ss: "{" + ", ".join(tlc.tla(tuple(s)) for s in ss) + "}"
     defs = {"ShapeSet": sset(shapes), "Shape0": sset(shape0), "Dev": tlc.tla({k: (k in dev) for k in DEVS})}
-    cons = {"Kind": tlc.tla(kind), "GenSizes": tlc.tla(set(gens)), "SkipSizes": tlc.tla(set(skips)),
+    cons = {"Kind": tlc.tla(kind), "FormSalt": str(int(salt) % 4), "GenSizes": tlc.tla(set(gens)), "SkipSizes": tlc.tla(set(skips)),
             "BigReps": tlc.tla(set(big)), "Warm": tlc.tla(set(warm)), "MaxLen": str(maxlen), "MaxGens": str(maxgens),
-            "GenDefault": tlc.tla(bool(gendef)), "Lattice": tlc.tla(bool(lattice)), "L": str(L), "FdQ": str(fdq)}
+            "GenDefault": tlc.tla(bool(gendef)), "Lattice": tlc.tla(bool(lattice)), "L": str(L)}
+    defs["FdQ"] = f"({int(fdq)})"       # a cfg file cannot hold a negative number
     for k in ("GenSizes", "SkipSizes", "BigReps"):
         if cons[k] == "{}":
             cons[k] = "{}"
@@ -70,14 +73,40 @@ def model(kind="jakes", gens=(1, 3, 1000), skips=(2,), big=(1,), shapes=((2,),),
 # --------------------------------------------------------------------------------------------------
 # driving the real code
 # --------------------------------------------------------------------------------------------------
-def py_shape(sh, variant=0):
-    """specification shape tuple -> constructor argument (None / int / tuple)"""
+FORMS = ["int", "tuple", "npint", "nptuple"]
+
+
+def py_shape(sh, form=0):
+    """specification shape tuple -> the argument handed to the real code, in the form the specification chose
+    (FormOf in Jakes.tla): None / Python int / tuple of Python ints / numpy integer scalar / tuple of numpy ints.
+    (An integer `form` selects FORMS[form % 4]: used by the stage-T recorder.)"""
+    if not isinstance(form, str):
+        form = FORMS[int(form) % 4]
     sh = tuple(int(x) for x in sh)
     if not sh:
         return None
-    if len(sh) == 1 and variant % 2 == 0:
+    if len(sh) > 1:
+        form = "nptuple" if form in ("npint", "nptuple") else "tuple"
+    if form == "int":
         return sh[0]
+    if form == "npint":
+        return np.int64(sh[0])
+    if form == "nptuple":
+        return tuple(np.int32(x) for x in sh)
     return sh
+
+
+def tuple_form(form):
+    """generate_jakes_samples documents its shape as a tuple: integer forms become the matching tuple form"""
+    return {"int": "tuple", "npint": "nptuple"}.get(form, form)
+
+
+def is_npint_shape_finding(ex, e):
+    """signature of the listed defect NumpyIntShapeRejected: a numpy integer scalar as shape raises TypeError
+    ("... is not iterable" / "must be an iterable") because the setter only knows isinstance(shape, int)"""
+    r = e["ret"]
+    return (isinstance(ex, TypeError) and "iterable" in str(ex) and r["op"] in ("Construct", "SetShape")
+            and r.get("form") == "npint")
 
 
 def limb(v):
@@ -107,9 +136,9 @@ class Mirror:
     """the generator's phases by the public route: the seeded RandomState handed to the constructor is
     re-played (same seed, same order of draws).  Draws are numbered like in the specification."""
 
-    def __init__(self, L, seed):
+    def __init__(self, L, seed, primary="rs"):
         self.L = L
-        self.m = {"rs": np.random.RandomState(seed)}
+        self.m = {primary: np.random.RandomState(seed)}     # "rs": a RandomState handed over; "np": numpy's global source
         self.phases = {}     # draw id -> (phi, psi)
 
     def peek(self, stream, sh):
@@ -129,11 +158,12 @@ class Mirror:
         self.phases[d] = ph
         return ph
 
-    def sibling(self, parent_stream, sh, d, seed2, matches):
+    def sibling(self, parent_stream, sh, d, seed2, matches, reseed=True):
         """get_similar_fading_generator of the current code draws from numpy's global source (seeded with
         seed2 by the caller); a generator sharing the parent's RandomState would be as good for the
         property.  Decided by which candidate reproduces the sibling's first sample (`matches`)."""
-        self.m["np"] = np.random.RandomState(seed2)
+        if reseed or "np" not in self.m:
+            self.m["np"] = np.random.RandomState(seed2)
         chosen = "np"
         for name in ("np", parent_stream):
             (phi, psi), _ = self.peek(name, sh)
@@ -158,8 +188,8 @@ class FuncGen:
         self.generate_more_samples()
 
     def _set_shape(self, shape):
-        self._shape = (shape,) if isinstance(shape, int) else shape
-        dims = [self.L] + list(self._shape or ()) + [1]
+        self._shape = (int(shape),) if isinstance(shape, (int, np.integer)) else shape
+        dims = [self.L] + [int(x) for x in (self._shape or ())] + [1]
         self._phi = 2 * np.pi * self.RS.rand(*dims)
         self._psi = 2 * np.pi * self.RS.rand(*dims)
 
@@ -186,6 +216,54 @@ class FuncGen:
         return self._h
 
 
+class FuncFreshGen:
+    """generate_jakes_samples called WITHOUT phase arguments (Kind = "funcfresh"): every call draws its own
+    phi_l, psi_l = np.random.rand(L, *shape, 1) from numpy's global source (not scaled by 2 pi); the source is
+    seeded before every call and re-played.  The caller keeps the returned time.  A call with no argument but
+    Fd uses every default: 100 samples, Ts = 1e-3, L = 8, shape None, from t = 0."""
+
+    def __init__(self, Fd, Ts, L, shape, seed):
+        from pyphysim.channels import fading_generators as fg
+        self._fn = fg.generate_jakes_samples
+        self.Fd, self.Ts, self.L, self._seed = Fd, Ts, L, seed
+        self._shape = shape
+        self._t, self._h, self._k = 0.0, None, 0
+        self.last_phases = None
+        self.generate_more_samples(1)
+
+    shape = property(lambda self: self._shape, lambda self, s: setattr(self, "_shape", s))
+
+    def generate_more_samples(self, n=None):
+        self._k += 1
+        s = (self._seed * 7919 + self._k * 104729) % (2 ** 31)
+        np.random.seed(s)
+        m = np.random.RandomState(s)
+        dims = [self.L] + [int(x) for x in (self._shape or ())] + [1]
+        phi = m.rand(*dims)
+        psi = m.rand(*dims)
+        if n is None:
+            if not (self.Ts == 1e-3 and self.L == 8 and self._shape is None):
+                raise RuntimeError("the all-defaults call is only meaningful for Ts = 1e-3, L = 8, shape None")
+            t0, n = 0.0, 100
+            t1, h = self._fn(self.Fd)
+        else:
+            t0 = self._t
+            t1, h = self._fn(self.Fd, self.Ts, n, self.L, self._shape, self._t)
+        if h.shape[-1] != n:
+            raise ValueError(f"cannot reshape array of size {h.shape[-1]} into shape ({n},) "
+                             f"[generate_jakes_samples returned {h.shape[-1]} samples for a request of {n}]")
+        want = t0 + n * self.Ts
+        if not abs(t1 - want) <= 0.01 * self.Ts + 4e-16 * abs(want):
+            raise AssertionError(f"generate_jakes_samples returned new time {t1!r} for start {t0!r} + {n} samples")
+        self._t, self._h, self.last_phases = t1, h, (phi, psi)
+
+    def skip_samples_for_next_generation(self, n):
+        self._t += n * self.Ts
+
+    def get_samples(self):
+        return self._h
+
+
 class Driver:
     """executes emitted edges on real generators and keeps, per generator, the block the specification
     demands get_samples() to return"""
@@ -194,13 +272,16 @@ class Driver:
         self.mode, self.Fd, self.Ts, self.L, self.seed = mode, Fd, Ts, L, seed
         self.lattice = mode.startswith("lat")
         self.func = mode.endswith("func")
+        self.fresh = mode == "relfreshfunc"       # generate_jakes_samples without phase arguments
+        self.glob = mode == "relglobal"           # primary generator built with defaults, RS = None (global source)
+        self.primary = "np" if self.glob else "rs"
         self.gens = []
         self.expect = []       # per generator: (array, tol array, description)
         self.stream = []       # per generator: which random stream its phases come from
         self.draw_of = []      # per generator: the phase draw currently in force
         self.held = []         # every array ever returned: (generator, the array itself - NOT a copy, expected, tol, descr)
         self.nstep = 0
-        self.mir = Mirror(L, seed)
+        self.mir = Mirror(L, seed, self.primary)
         self.phases = self.mir.phases
         self.table = TableRS() if self.lattice else None
         self.scale = np.sqrt(norm2[0] / norm2[1]) if norm2 else None
@@ -230,7 +311,7 @@ class Driver:
                 p = np.array([complex(v[0], v[1]) for v in per])
                 out[ei, :] = p[(r0 + np.arange(n)) % 4]
             out = (out * self.scale).reshape(sh + (n,))
-            fdts = self.Fd * self.Ts
+            fdts = abs(self.Fd * self.Ts)
             tol = np.full(sh + (1,), 0.01 * 2 * np.pi * fdts * np.sqrt(self.L) + 1e-9)
             return out, tol
         phi, psi = self.phases[int(blk["ph"])]
@@ -254,6 +335,11 @@ class Driver:
 
     # ---- one step -------------------------------------------------------------------------------
     def _new(self, shape, RS):
+        if self.fresh:
+            return FuncFreshGen(self.Fd, self.Ts, self.L, shape, self.seed)
+        if self.glob:
+            from pyphysim.channels.fading_generators import JakesSampleGenerator
+            return JakesSampleGenerator() if shape is None else JakesSampleGenerator(shape=shape)
         if self.func:
             return FuncGen(self.Fd, self.Ts, self.L, shape, RS)
         from pyphysim.channels.fading_generators import JakesSampleGenerator
@@ -268,11 +354,19 @@ class Driver:
             if self.lattice:
                 self.table.feed(r["tab"])
                 RS = self.table
+            elif self.fresh:
+                RS = None
+            elif self.glob:
+                RS = None
+                np.random.seed(self.seed)              # the caller's own use of the global source ...
+                self.mir.draw("np", r["sh"], 1)
             else:
                 RS = np.random.RandomState(self.seed)
                 self.mir.draw("rs", r["sh"], 1)
-            self.gens.append(self._new(py_shape(r["sh"], self.seed), RS))
-            self.stream.append("rs")
+            self.gens.append(self._new(py_shape(r["sh"], tuple_form(r["form"]) if self.fresh else r["form"]), RS))
+            if self.fresh:
+                self.phases[1] = self.gens[0].last_phases
+            self.stream.append(self.primary)
             self.draw_of.append(1)
             for _ in range(int(r["warm"])):
                 self.gens[0].skip_samples_for_next_generation(BIG)
@@ -281,9 +375,13 @@ class Driver:
         o = self.gens[g]
         if op == "Gen":
             o.generate_more_samples(self._n(r["n"]))
+            if self.fresh:
+                self.phases[int(r["exp"]["ph"])] = o.last_phases
             self._set_expect(g, e, r["exp"])
         elif op == "GenDefault":
             o.generate_more_samples()
+            if self.fresh:
+                self.phases[int(r["exp"]["ph"])] = o.last_phases
             self._set_expect(g, e, r["exp"])
         elif op == "Skip":
             o.skip_samples_for_next_generation(self._n(r["n"]))
@@ -293,9 +391,12 @@ class Driver:
         elif op == "SetShape":
             if self.lattice:
                 self.table.feed(r["tab"])
-            else:
+            elif not self.fresh:
+                if self.glob:     # ... interleaved with the generator's: the caller draws from the global source too
+                    if not np.array_equal(np.random.rand(3), self.mir.m["np"].rand(3)):
+                        raise RuntimeError("global random source and its mirror diverged")
                 self.mir.draw(self.stream[g], r["sh"], int(r["draw"]))
-            o.shape = py_shape(r["sh"], self.seed + int(r["draw"]))
+            o.shape = py_shape(r["sh"], tuple_form(r["form"]) if self.fresh else r["form"])
             self.draw_of[g] = int(r["draw"])
         elif op == "Similar":
             self._similar(e, g)
@@ -306,8 +407,9 @@ class Driver:
         r = e["ret"]
         d = int(r["exp"]["ph"])
         sh = r["exp"]["sh"]
-        s2 = (self.seed * 7919 + 104729) % (2 ** 31)
-        np.random.seed(s2)                      # the sibling of the current code draws from numpy's global source
+        s2 = (self.seed * 7919 + 104729 * len(self.gens)) % (2 ** 31)
+        if not self.glob:
+            np.random.seed(s2)                  # the sibling of the current code draws from numpy's global source
         sib = self.gens[g].get_similar_fading_generator()
         self.gens.append(sib)
         got = np.asarray(sib.get_samples())
@@ -316,7 +418,7 @@ class Driver:
             m = jm.jakes_block(self.Fd, self.Ts, self.L, phi, psi, 0, 1)
             return got.shape == m.shape and bool(np.all(np.abs(got - m) <= jm.tolerance(self.Fd, self.Ts, self.L, phi)))
 
-        self.stream.append(self.mir.sibling(self.stream[g], sh, d, s2, matches))
+        self.stream.append(self.mir.sibling(self.stream[g], sh, d, s2, matches, reseed=not self.glob))
         self.draw_of.append(d)
         self._set_expect(len(self.gens) - 1, e, r["exp"])
 
@@ -413,6 +515,10 @@ def run_edges(mode, Fd, Ts, L, seed, edges):
     norm2 = edges[0].get("norm2")
     if mode.startswith("lat"):
         L = int(norm2[1])
+    if mode == "relglobal":           # JakesSampleGenerator() with every default
+        Fd, Ts, L = 100, 1e-3, 8
+    if mode == "relfreshfunc":        # the defaults of generate_jakes_samples (used by the no-argument call)
+        Fd, Ts, L = Fd * Ts / 1e-3, 1e-3, 8
     drv = Driver(mode, Fd, Ts, L, seed, norm2)
     okc = 0
     hist = []
@@ -423,7 +529,8 @@ def run_edges(mode, Fd, Ts, L, seed, edges):
         try:
             drv.step(e)
         except Exception as ex:  # noqa
-            kind = "finding:ArangeCountDrifts" if is_arange_finding(ex, e) else "violation"
+            kind = ("finding:ArangeCountDrifts" if is_arange_finding(ex, e) else
+                    "finding:NumpyIntShapeRejected" if is_npint_shape_finding(ex, e) else "violation")
             return okc, (kind, i, f"{_opname(e)} raised {type(ex).__name__}: {str(ex)[:160]}")
         bad = drv.check_all()
         if bad:
@@ -438,6 +545,8 @@ def _opname(e):
     r = e["ret"]
     a = {"Gen": "n", "Skip": "n", "SkipBig": "r", "SetShape": "sh", "Construct": "sh"}.get(r["op"])
     s = f"{r['op']}({r[a]})" if a else r["op"]
+    if r.get("form") in ("npint", "nptuple"):
+        s = s[:-1] + f" as {r['form']})"
     if r["op"] == "Construct" and r["warm"]:
         s += f"+{r['warm']}x10^7 skipped"
     return s if int(r.get("g", 1)) == 1 else s + f"@g{r['g']}"
@@ -470,7 +579,7 @@ def run_rayleigh(seed, edges):
         try:
             msg = None
             if op == "Construct":
-                gens.append(RayleighSampleGenerator(py_shape(r["sh"], seed)))
+                gens.append(RayleighSampleGenerator(py_shape(r["sh"], r["form"])))
                 msg = block(gens[0], r["exp"], "constructor")
             elif op in ("Gen", "GenDefault"):
                 gens[g].generate_more_samples(int(r["n"])) if op == "Gen" else gens[g].generate_more_samples()
@@ -480,14 +589,15 @@ def run_rayleigh(seed, edges):
             elif op == "SkipBig":
                 gens[g].skip_samples_for_next_generation(BIG)
             elif op == "SetShape":
-                gens[g].shape = py_shape(r["sh"], seed + i)
+                gens[g].shape = py_shape(r["sh"], r["form"])
                 if tuple(gens[g].shape or ()) != tuple(int(x) for x in r["sh"]):
                     msg = f"shape property reads {gens[g].shape!r} after setting {r['sh']}"
             elif op == "Similar":
                 gens.append(gens[g].get_similar_fading_generator())
                 msg = block(gens[-1], r["exp"], "sibling constructor")
         except Exception as ex:  # noqa
-            return okc, ("violation", i, f"Rayleigh {_opname(e)} raised {type(ex).__name__}: {str(ex)[:160]}")
+            return okc, ("finding:NumpyIntShapeRejected" if is_npint_shape_finding(ex, e) else "violation", i,
+                         f"Rayleigh {_opname(e)} raised {type(ex).__name__}: {str(ex)[:160]}")
         if msg:
             return okc, ("violation", i, "Rayleigh " + msg)
         for k, (obj, val) in enumerate(held):
@@ -540,7 +650,8 @@ L_BIG = [8, 20, 5, 17, 12, 3, 1, 16]      # with requests of 10^5 samples (memor
 def explore(ctx, name, r, depth, combos, every=None, extra=()):
     """replay all paths of the emitted graph; combos = list of (mode, FdTs, Ts); every path is run under
     `every` combos chosen round-robin (None: under all of them) plus one of `extra` (round-robin)"""
-    ctx.account(r, MODULE, name)
+    if r.out:
+        ctx.account(r, MODULE, name)
     r.out = ""          # the parsed edges are all that is needed from here on
     unknown = {x for e in r.emitted for x in e.get("req", ())} - set(LAWS)
     if unknown or not all(e.get("req") for e in r.emitted):
@@ -595,6 +706,7 @@ def report(ctx, found):
 def model_devs(ctx):
     """every named deviation must be FOUND by TLC (the properties are not vacuous)"""
     want = {"ArangeCountDrifts": ("Count", {}), "ArangeStepRounded": ("OnGrid", {}),
+            "NumpyIntShapeRejected": ("ShapeAccepted", {}),
             "ReusesBuffer": ("EarlierBlocksUnchanged", {}), "PlusTsDropped": ("Contiguity", {}), "SkipOffByOne": ("Contiguity", {}),
             "ShapeRestartsTime": ("Contiguity", {}), "GenRedrawsPhases": ("PhasesFixed", {}),
             "SimilarSharesPhases": ("Independent", dict(maxgens=2)), "NormOneOverL": ("UnitPower", dict(lattice=True)),
@@ -624,30 +736,41 @@ def configs(tier):
     # (tolerance = 1 % of a sampling interval + 1e-9, see c14_model.py); time invariance is demanded ONLY of
     # the configurations with Fd exactly 0.
     slow = [(7e-9, 1e-9), (1e-9, 1e-3), (1e-8, 1e-6), (1e-7, 1.0), (3e-9, 1.0), (1e-8, 1e-9), (1e-7, 1e-6), (2.5e-8, 1e-3)]
+    # both signs and more than half a turn per sample: the model is defined for any Fd (a negative Doppler is the
+    # conjugate rotation; at Fd*Ts = 0.9 the phase reaches 5.7e10 rad at 10^10 samples)
+    wide = [(-0.05, 1e-3), (0.9, 1e-6), (-0.37, 1e-9), (1.7, 1.0)]
     c = {}
     if not thorough:
         rel = [("rel", 0.05, Ts) for Ts in Ts2]
-        srel = [("rel", f, Ts) for f, Ts in slow[:4]]
-        sfun = [("relfunc", f, Ts) for f, Ts in slow[:4]]
+        srel = [("rel", f, Ts) for f, Ts in slow[:4] + wide[:2]]
+        sfun = [("relfunc", f, Ts) for f, Ts in slow[:4] + wide[:2]]
         # the alphabet of DESIGN.md: {Gen 1, Gen 3, Gen 1000, Skip 2, SkipBig, SetShape}, all sequences <= 4,
         # from a fresh generator and from one that has already produced 999 * 10^7 samples (10^10 after one SkipBig)
         c["chunk"] = (dict(warm=(0, 999)), 5, rel, None, srel)
-        c["similar"] = (dict(gens=(3,), skips=(2,), big=(), shapes=((2, 3),), shape0=((3,),), maxgens=2, gendef=True,
-                             maxlen=4), 5, [("rel", 0.05, 1e-3)], None, srel[:2])
-        c["func"] = (dict(gens=(1, 3), skips=(2,), big=(1,), shapes=((2,),), warm=(0, 999), maxlen=3), 4,
+        c["similar"] = (dict(gens=(3,), skips=(2,), big=(), shapes=((2, 3), ()), shape0=((3,),), maxgens=2, gendef=True,
+                             maxlen=4), 5, [("rel", 0.05, 1e-3)], 1, srel)
+        c["func"] = (dict(gens=(1, 3), skips=(2,), big=(1,), shapes=((2,), (), (1,)), warm=(0, 999), maxlen=3), 4,
                      [("relfunc", 0.05, Ts) for Ts in Ts2], 1, sfun)
-        c["zero-doppler"] = (dict(gens=(1, 3), skips=(2,), big=(1,), shapes=((2,),), maxlen=3), 4,
-                             [("rel", 0.0, 1e-3)], None)
+        # the primary generator built with EVERY default (Fd = 100 as int, Ts = 1e-3, L = 8, RS = None: numpy's global
+        # source, which the caller uses in between too); shape set back to None and to a unit dimension; the default-size
+        # request after 10^7 .. 10^10 samples
+        c["global"] = (dict(gens=(3,), skips=(2,), big=(1,), shapes=((1,), ()), shape0=((), (2,)), warm=(0, 999), maxgens=2,
+                            gendef=True, maxlen=3), 4, [("relglobal", 0.1, 1e-3)], None)
+        # generate_jakes_samples WITHOUT phase arguments and with all defaults (own draw per call)
+        c["func-fresh"] = (dict(kind="funcfresh", gens=(1, 3), skips=(2,), big=(1,), shapes=((2,), (), (2, 3)),
+                                shape0=((), (3,)), warm=(0, 999), gendef=True, maxlen=3), 4,
+                           [("relfreshfunc", 0.05, 1e-3), ("relfreshfunc", -0.05, 1e-3)], 1)
+        c["zero-doppler"] = ("func", 4, [("rel", 0.0, 1e-3)], None)        # same request sequences as `func`
         lat = dict(gens=(1, 3, 6), skips=(1, 2), big=(1,), shapes=((2,),), maxlen=3, lattice=True)
-        c["lattice-q1"] = (dict(lat, L=4, fdq=1, warm=(0, 999)), 4, [("lat", 0.25, 1e-3), ("latfunc", 0.25, 1e-9)], None)
-        c["lattice-q2"] = (dict(lat, L=20, fdq=2), 4, [("lat", 0.5, 1e-6)], None)
+        c["lattice-q1"] = (dict(lat, L=20, fdq=1, warm=(0, 999)), 4, [("lat", 0.25, 1e-3), ("latfunc", 0.25, 1e-9)], None)
         c["lattice-q0"] = (dict(lat, L=5, fdq=0), 4, [("lat", 0.0, 1e-3), ("latfunc", 0.0, 1.0)], None)
+        c["lattice-qneg"] = (dict(lat, L=5, fdq=-1), 4, [("lat", -0.25, 1e-3), ("latfunc", -0.25, 1e-6)], 1)
         c["rayleigh"] = (dict(kind="rayleigh", gens=(1, 3), skips=(2,), big=(), shapes=((2, 3), ()), shape0=((), (2,)),
                               maxgens=2, gendef=True, maxlen=3), 4, [("rayleigh", 0.0, 1.0)], None)
     else:
         rel = [("rel", f, Ts) for Ts in Ts4 for f in (0.05, 0.011, 0.23)]
-        srel = [("rel", f, Ts) for f, Ts in slow]
-        sfun = [("relfunc", f, Ts) for f, Ts in slow]
+        srel = [("rel", f, Ts) for f, Ts in slow + wide]
+        sfun = [("relfunc", f, Ts) for f, Ts in slow + wide]
         c["chunk"] = (dict(warm=(0, 999), maxlen=6), 7, rel + srel, 1)
         c["chunk-big"] = (dict(gens=(1, 3, 1000, 100000), warm=(0, 999), maxlen=5), 6, rel + srel, 1)
         c["chunk-all"] = (dict(warm=(0, 999), maxlen=4), 5, rel + srel, None)
@@ -661,6 +784,15 @@ def configs(tier):
         c["lattice-q1"] = (dict(lat, L=47, fdq=1), 5, [(m, 0.25, Ts) for Ts in Ts4 for m in ("lat", "latfunc")], 2)
         c["lattice-q2"] = (dict(lat, L=20, fdq=2), 5, [(m, 0.5, Ts) for Ts in Ts4 for m in ("lat", "latfunc")], 2)
         c["lattice-q0"] = (dict(lat, L=33, fdq=0), 5, [(m, 0.0, Ts) for Ts in Ts4 for m in ("lat", "latfunc")], 2)
+        c["lattice-qneg"] = (dict(lat, L=5, fdq=-1), 5, [(m, -0.25, Ts) for Ts in Ts4 for m in ("lat", "latfunc")], 1)
+        c["lattice-q3"] = (dict(lat, L=12, fdq=3), 5, [(m, 0.75, Ts) for Ts in Ts4 for m in ("lat", "latfunc")], 1)
+        c["global"] = (dict(gens=(1, 3), skips=(2,), big=(1,), shapes=((1,), (), (2, 1, 2)), shape0=((), (2,)), warm=(0, 999),
+                            maxgens=2, gendef=True, maxlen=4), 5, [("relglobal", 0.1, 1e-3)], None)
+        c["func-fresh"] = (dict(kind="funcfresh", gens=(1, 3, 1000), skips=(2,), big=(1,), shapes=((2,), (), (2, 3)),
+                                shape0=((), (3,)), warm=(0, 999), gendef=True, maxlen=4), 5,
+                           [("relfreshfunc", f, 1e-3) for f in (0.05, -0.05, 0.9, 1e-7)], 1)
+        c["siblings3"] = (dict(gens=(3,), skips=(2,), big=(), shapes=((2,),), maxgens=3, maxlen=4), 5,
+                          [("rel", 0.05, Ts) for Ts in Ts4], 1)
         c["rayleigh"] = (dict(kind="rayleigh", gens=(1, 3), skips=(2,), big=(1,), shapes=((2, 3), ()),
                               shape0=((), (2,)), maxgens=2, gendef=True, maxlen=4), 5, [("rayleigh", 0.0, 1.0)], None)
     return c
@@ -682,7 +814,9 @@ def run(ctx):
 
     def tlc_cfg(name):
         kw = cf[name][0]
-        cfg, defs = model(**kw)
+        if isinstance(kw, str):
+            return None             # replays the graph of another configuration
+        cfg, defs = model(salt=ctx.seed + list(cf).index(name), **kw)      # rotates the shape forms per configuration
         return tlc.run(MODULE, cfg, defs=defs, coverage=True)
 
     def tlc_deep():
@@ -704,6 +838,7 @@ def run(ctx):
         long_ = ex.submit(tlc_long)
         devf = ex.submit(model_devs, ctx)
         runs = {n: f.result() for n, f in futs.items()}
+        runs = {n: (r if r is not None else runs[cf[n][0]]) for n, r in runs.items()}
         devf.result()
         ctx.account(deep.result(), MODULE, "deep (model only: 14-request alphabet, 2 generators)")
         ctx.account(long_.result(), MODULE, "long (model only: sequences up to 12 / 8 requests)")
